@@ -161,7 +161,14 @@ func (eval Evaluator) MultiplyByDiagMatrix(ctIn *rlwe.Ciphertext, matrix LinearT
 	QiOverF := params.QiOverflowMargin(levelQ)
 	PiOverF := params.PiOverflowMargin(levelP)
 
-	c0OutQP := ringqp.Poly{Q: opOut.Value[0], P: BuffQP[5].Q}
+	// BuffQP[5].Q stores the P-part of the first accumulator, which requires
+	// it to have at least as many moduli as P at levelP.
+	c0OutP := BuffQP[5].Q
+	if c0OutP.Level() < levelP {
+		c0OutP = ringP.NewPoly()
+	}
+
+	c0OutQP := ringqp.Poly{Q: opOut.Value[0], P: c0OutP}
 	c1OutQP := ringqp.Poly{Q: opOut.Value[1], P: BuffQP[5].P}
 
 	ct0TimesP := BuffQP[0].Q // ct0 * P mod Q
@@ -315,7 +322,14 @@ func (eval Evaluator) MultiplyByDiagMatrixBSGS(ctIn *rlwe.Ciphertext, matrix Lin
 	cQP.IsNTT = true
 
 	// Result in QP
-	c0OutQP := ringqp.Poly{Q: opOut.Value[0], P: BuffQP[5].Q}
+	// BuffQP[5].Q stores the P-part of the first accumulator, which requires
+	// it to have at least as many moduli as P at levelP.
+	c0OutP := BuffQP[5].Q
+	if c0OutP.Level() < levelP {
+		c0OutP = ringP.NewPoly()
+	}
+
+	c0OutQP := ringqp.Poly{Q: opOut.Value[0], P: c0OutP}
 	c1OutQP := ringqp.Poly{Q: opOut.Value[1], P: BuffQP[5].P}
 
 	ringQ.MulScalarBigint(ctInTmp0, ringP.ModulusAtLevel[levelP], ctInTmp0) // P*c0
